@@ -12,7 +12,8 @@ KINDS = [('$', '$', 'TexMathModeEnv', '$'), ('$$', '$$', 'TexDisplayMathModeEnv'
       'flalign*', 'gather', 'gather*', 'math', 'multline', 'multline*', 'split')]
 NKINDS = len(KINDS)
 CTX = [('', ''), ('p ', ' q'), ('\\begin{e}', '\\end{e}'), ('\\begin{itemize}\\item a ', '\\end{itemize}'), ('\\z{', '}'), ('{', '}'),
-       ('\\begin{e}[o]', '\\end{e}'), ('p\\\\', '\\\\q'), ('\\begin{e}x\\\\', '\\end{e}')]
+       ('\\begin{e}[o]', '\\end{e}'), ('p\\\\', '\\\\q'), ('\\begin{e}x\\\\', '\\end{e}'),
+       ('\\begin{verbatim}a$b\\end{verbatim}', ''), ('%$\n', '\\begin{lstlisting}$$$\\end{lstlisting}')]
 SIZES = ['left', 'right', 'big', 'Big', 'bigg', 'Bigg']
 MULTI = ['\\{', '\\}', '\\langle', '\\rangle', '\\lfloor', '\\rfloor', '\\lceil', '\\rceil', '\\ulcorner', '\\urcorner', '\\lbrack',
          '\\rbrack']
